@@ -11,12 +11,14 @@ import (
 	"strings"
 	"sync"
 
+	pb "github.com/ipfs/boxo/ipld/unixfs/pb"
 	"github.com/ipfs/go-cid"
 	"github.com/ipld/go-ipld-prime"
 	"github.com/ipld/go-ipld-prime/datamodel"
 
 	"verif/harness/core"
 	"verif/harness/gen"
+	"verif/harness/model"
 	"verif/harness/store"
 	"verif/harness/xplore"
 )
@@ -148,6 +150,44 @@ func seekEndBody(n datamodel.Node) func() string {
 	}
 }
 
+func asBytesBody(n datamodel.Node) func() string {
+	return func() string {
+		b, err := n.AsBytes()
+		return fmt.Sprintf("asbytes:%x err=%v", b, err)
+	}
+}
+
+// c17PlainDir: a plain (unsharded) directory block.
+func c17PlainDir() *c17Inst {
+	s := store.New()
+	names := []string{"a", "b c", "é", "0", "zz"}
+	root, _, err := gen.OursDir(s, gen.Leaves(s, names))
+	if err != nil {
+		panic(err)
+	}
+	ls := lsFor(s)
+	rn, err := loadRoot(ls, root)
+	if err != nil {
+		panic(err)
+	}
+	return &c17Inst{s: s, ls: ls, root: root, rootN: rn, names: names, via: "unixfs"}
+}
+
+// c17InlineFile: a single dag-pb block holding the file bytes inline (the
+// wrapped-node file view).
+func c17InlineFile() *c17Inst {
+	s := store.New()
+	blk := model.EncodePB(&model.PBNode{Data: fsData(2, func(d *pb.Data) { d.Data = []byte("inline-bytes"); d.Filesize = u64p(12) }), HasData: true})
+	root, _ := gen.V1PB.Sum(blk)
+	s.Put(root, blk)
+	ls := lsFor(s)
+	rn, err := loadRoot(ls, root)
+	if err != nil {
+		panic(err)
+	}
+	return &c17Inst{s: s, ls: ls, root: root, rootN: rn, via: "unixfs"}
+}
+
 // c17HandFile: a file whose interior nodes record no BlockSizes, so that the
 // reader has to open dag-pb children to learn their size (a code path both
 // writers of this repository never exercise).
@@ -221,6 +261,22 @@ func c17Scenarios(quick bool) []c17Scenario {
 			bodies: func(i *c17Inst, n datamodel.Node) []func() string {
 				return []func() string{readAllBody(n, 5), seekEndBody(n), readAllBody(n, 2)}
 			}},
+		{Name: "S8-two-iterators-cold", Threads: 2, Bounds: b2, setup: c17Dir,
+			bodies: func(i *c17Inst, n datamodel.Node) []func() string {
+				return []func() string{iterBody(n), iterBody(n)}
+			}},
+		{Name: "S9-plain-dir-iterate-and-lookups", Threads: 3, Bounds: b3small, setup: c17PlainDir,
+			bodies: func(i *c17Inst, n datamodel.Node) []func() string {
+				return []func() string{iterBody(n), lookupBody(n, i.names[1]), lookupBody(n, "nope")}
+			}},
+		{Name: "S10-inline-file-readers-and-bytes", Threads: 3, Bounds: b3small, setup: c17InlineFile,
+			bodies: func(i *c17Inst, n datamodel.Node) []func() string {
+				return []func() string{readAllBody(n, 2), asBytesBody(n), seekEndBody(n)}
+			}},
+		{Name: "S11-file-bytes-and-reader", Threads: 2, Bounds: b2, setup: c17File,
+			bodies: func(i *c17Inst, n datamodel.Node) []func() string {
+				return []func() string{asBytesBody(n), readAllBody(n, 6)}
+			}},
 		{Name: "S6-preloaded-file-two-readers", Threads: 2, Bounds: b2, setup: func() *c17Inst { i := c17File(); i.via = "unixfs-preload"; return i },
 			bodies: func(i *c17Inst, n datamodel.Node) []func() string {
 				return []func() string{readAllBody(n, 3), seekEndBody(n)}
@@ -255,6 +311,36 @@ func c17Solo(sc c17Scenario, inst *c17Inst) []string {
 	return out
 }
 
+// c17Epilogue: what is asked of the node after the concurrent phase: the whole
+// map (length, iteration, every name) or the whole file.
+func c17Epilogue(inst *c17Inst, n datamodel.Node) func() string {
+	return func() string {
+		if n.Kind() == datamodel.Kind_Map {
+			out := lengthBody(n)() + " " + iterBody(n)()
+			for _, name := range inst.names {
+				out += " " + lookupBody(n, name)()
+			}
+			return out + " " + lookupBody(n, "nope")()
+		}
+		return readAllBody(n, 7)() + " " + seekEndBody(n)()
+	}
+}
+
+var c17EpiSolo = map[string]string{}
+
+func c17EpilogueSolo(sc c17Scenario, inst *c17Inst) string {
+	if v, ok := c17EpiSolo[sc.Name]; ok {
+		return v
+	}
+	n, _ := openVia(inst.via, inst.ls, inst.rootN)
+	if sc.prelude != nil {
+		sc.prelude(n)
+	}
+	v := c17Epilogue(inst, n)()
+	c17EpiSolo[sc.Name] = v
+	return v
+}
+
 var c17execs int
 
 // c17Exec runs one execution under the given choice prefix and checks the
@@ -284,7 +370,7 @@ func c17Body(sc c17Scenario, inst *c17Inst, shared map[string]bool, solo []strin
 	if sc.prelude != nil {
 		prelude = func() { sc.prelude(n) }
 	}
-	s := runScheduled(x, shared, prelude, sc.bodies(inst, n))
+	s := runScheduled(x, shared, prelude, sc.bodies(inst, n), c17Epilogue(inst, n))
 	debug.SetGCPercent(old)
 	c17execs++
 	if c17execs%500 == 0 {
@@ -296,6 +382,11 @@ func c17Body(sc c17Scenario, inst *c17Inst, shared map[string]bool, solo []strin
 	}
 	for pair, kind := range s.races {
 		viol("data-race "+pair, fmt.Sprintf("%s: unsynchronised conflicting accesses %s [%s] (choices %v)", sc.Name, pair, kind, x.Choices))
+	}
+	if s.epilogueRan {
+		if want := c17EpilogueSolo(sc, inst); s.epilogueResult != want {
+			viol("later-use-differs "+sc.Name, fmt.Sprintf("%s: after the concurrent phase the node answers %s, a node used alone answers %s (choices %v)", sc.Name, clipStr(s.epilogueResult, 160), clipStr(want, 160), x.Choices))
+		}
 	}
 	var results []string
 	for i, t := range s.threads {
